@@ -728,6 +728,8 @@ def random_op(rng, w, classes, default_only=False):
             op = _random_op_once(rng, w, classes, default_only, names, idx, flat_index)
         except _Skip:
             continue
+        except Exception:  # noqa  a world that holds junk (possible only on a broken tree) must not stop the run
+            return ("New", random_value(rng, classes))
         if op is not None:
             return op
     return ("New", random_value(rng, classes))
